@@ -67,6 +67,8 @@ vf_i32 VFN(vf_guardc)(vf_i32 site) {
   return (vf_i32)v;
 }
 
+int vf_live;
+void VFN(vf_life)(vf_i32 d) { vf_live += (int)d; }
 int32_t vf_throw_site = -1, vf_throw_site0 = -1;   /* C12: the behaviour position (kind * 64 + index) that throws in the current step, -1 = none */
 vf_i32 VFN(vf_hook)(vf_i32 site) { if ((int32_t)site == vf_throw_site) { vf_throw_site = -1; return 1; } return 0; }   /* one fault per step */
 
